@@ -436,24 +436,30 @@ def run(ctx, replay_data=None):
             payloads = load_corpus() + gen_handler_batch(ctx, ctx.n(600, 20000))
         else:
             payloads = [replay_data["payload"]]
-        outs = C.run_driver_parallel(ctx, "c04_thinning", payloads, timeout=1700)
-        for cfg, o in zip(payloads, outs):
-            for case, results in zip(cfg["cases"], o["out"]):
-                for res in results:
-                    if res.get("skipped"):
-                        stats["skipped"] += 1
-                        continue
-                    m, s = oracle(cfg, case, res)
-                    stats["runs"] += 1
-                    stats["by_family"][cfg["family"]] = stats["by_family"].get(cfg["family"], 0) + 1
-                    if m:
-                        fails.append((cfg, case, res, m))
-                        continue
-                    summaries.append(s)
-                    stats["confirmed"] += 1 if s["conf"] else 0
-                    stats["ties"] += 1 if s["drawn"] and s["x"] == max(0.0, s["r"]) else 0
-                    stats["negative_rate"] += 1 if s["r"] <= 0 else 0
-                    stats["exceeded"] += 1 if s["b"] is not None and s["r"] > s["b"] else 0
+        # in batches: the raw records of a thorough run do not fit in memory at once
+        for k in range(0, len(payloads), 4 * C.NCPU):
+            batch = payloads[k:k + 4 * C.NCPU]
+            outs = C.run_driver_parallel(ctx, "c04_thinning", batch, timeout=1700)
+            for cfg, o in zip(batch, outs):
+                for case, results in zip(cfg["cases"], o["out"]):
+                    for res in results:
+                        if res.get("skipped"):
+                            stats["skipped"] += 1
+                            continue
+                        m, s = oracle(cfg, case, res)
+                        stats["runs"] += 1
+                        stats["by_family"][cfg["family"]] = stats["by_family"].get(cfg["family"], 0) + 1
+                        if m:
+                            if len(fails) < 20:
+                                fails.append((cfg, case, res, m))
+                            stats["failed"] = stats.get("failed", 0) + 1
+                            continue
+                        summaries.append(s)
+                        stats["confirmed"] += 1 if s["conf"] else 0
+                        stats["ties"] += 1 if s["drawn"] and s["x"] == max(0.0, s["r"]) else 0
+                        stats["negative_rate"] += 1 if s["r"] <= 0 else 0
+                        stats["exceeded"] += 1 if s["b"] is not None and s["r"] > s["b"] else 0
+            del outs
     terms = [case_term(s) for s in summaries]
     neval, bad, nfiles, nok, err = (0, [], 0, 0, "")
     if terms:
@@ -483,7 +489,7 @@ def run(ctx, replay_data=None):
         cfg, case, res, m = fails[0]
         payload = dict(cfg, cases=[dict(case, umodes=[res["mode"]])])
         C.violation(ctx, "oracle", {"kind": "c04-handler", "payload": payload, "message": m,
-                                    "n_failing": len(fails), "family": cfg["family"]},
+                                    "n_failing": stats.get("failed", len(fails)), "family": cfg["family"]},
                     "C04 fails on the implementation (%s handler): %s" % (cfg["family"], m))
     elif dom_viol:
         w = dom_viol[0]
@@ -522,10 +528,11 @@ def run(ctx, replay_data=None):
                                "runs_with_true_rate_above_bound (lowered prefactor on purpose)": stats["exceeded"],
                                "skipped (event position left the cell: handler returns None)": stats["skipped"]},
         "model_vs_impl_mismatches": len(bad),
-        "oracle_failures": len(fails),
+        "oracle_failures": stats.get("failed", len(fails)),
         "traces_validated_against_impl": neval,
         "case_files": nfiles, "case_files_ok": nok,
-        "domination_monitor (sampled, not proved)": None if dom is None else {
+        "domination_monitor": None if dom is None else {
+            "status": "sampled, not proved",
             "evaluations": dom["neval"], "with_positive_true_rate": dom["npos"], "violations": len(dom["violations"]),
             "largest_ratio_true_over_bound": dom["max_ratio"],
             "largest_ratio_at": None if dom["max_at"] is None else {
@@ -538,17 +545,18 @@ def run(ctx, replay_data=None):
             "sign_residues_below_noise_floor": dom["residues"],
             "largest_residue_times_L2": dom["max_residue"],
             "noise_floor_times_L2": ABS_FLOOR, "strata": STRATA, "driver_jobs": dom["jobs"]},
-        "real_runs (bounding_potential_warning intercepted)": [
+        "real_runs": [
             {k: r.get(k) for k in ("config", "n_calls", "calls", "n_exceeded")} |
             {"max_ratio": {k: (v if v == "inf" else b2f(v)) for k, v in (r.get("max_ratio") or {}).items()}}
             for r in runs],
-        "explanation": "Props/C04.v re-checked (%d theorems, acceptance logic); decisions and out-state velocity "
+        "explanation": "acceptance logic proved; domination clause sampled, not proved. "
+                       "Props/C04.v re-checked (%d theorems, acceptance logic); decisions and out-state velocity "
                        "patterns of the real handlers compared with Model/Thinning.v inside Coq; exact oracle incl. "
                        "glue; domination of the 1/r bound over the merged-image derivative is SAMPLED, NOT PROVED"
                        % nthm,
         "trusted_base": TRUSTED,
     }
-    C.write_evidence(ctx, cov, ASSUME, level="proof (acceptance logic) + sampled monitor (domination clause)")
+    C.write_evidence(ctx, cov, ASSUME)
 
 
 TRUSTED = [
